@@ -120,7 +120,8 @@ func c13Run(c *fw.Ctx) {
 		ce := getEnv(set)
 		e := ce.e
 		port := e.Backends["p"].Addr()[strings.LastIndex(e.Backends["p"].Addr(), ":")+1:]
-		hosts := []string{"a.sso.test", "A.SSO.TEST", "a.sso.test:443", "b.sso.test", "c.sso.test:8443", "c.sso.test", "svc-" + port + ".sso.test", "svc-x.sso.test", "svc-static.sso.test", "SVC-" + port + ".sso.test", "xsvc-" + port + ".sso.test.evil", "nomatch.test", ""}
+		hosts := []string{"a.sso.test", "A.SSO.TEST", "a.sso.test:443", "b.sso.test", "c.sso.test:8443", "c.sso.test", "svc-" + port + ".sso.test", "svc-x.sso.test", "svc-static.sso.test", "SVC-" + port + ".sso.test", "xsvc-" + port + ".sso.test.evil", "nomatch.test", "",
+			"svc-" + port + ".sso.test:8443", "svc-static.sso.test:8080", "127.0.0.1:" + port, "b.sso.test:80"}
 		host := hosts[x.Choose("host", len(hosts))]
 		// who asks: nobody (no cookie), or the user of upstream k with a cookie minted for host m
 		who := x.Choose("cookie-user", len(ce.ups)+1)
@@ -149,9 +150,10 @@ func c13Run(c *fw.Ctx) {
 			}
 		}
 		if want == nil {
-			// a case or port variant of a configured simple host: either that upstream or no route
+			// a case variant of a configured simple host: either that upstream or no route (a port variant
+			// is another Host: the statement demands an exact match)
 			for _, uc := range ce.order {
-				if r, ok := uc.Route.(*proxy.SimpleRoute); ok && strings.EqualFold(strings.Split(r.FromURL.Host, ":")[0], strings.Split(host, ":")[0]) && host != "" {
+				if r, ok := uc.Route.(*proxy.SimpleRoute); ok && strings.EqualFold(r.FromURL.Host, host) && host != "" {
 					want, lenient = uc, true
 				}
 			}
